@@ -145,9 +145,34 @@ class Program:
         self.ctx.published[id(obj)] = obj
         return True
 
+    @staticmethod
+    def too_big(obj):
+        """results are fed back into the pool, so magnitudes would grow
+        exponentially (d*4*4...) and every later addition would walk
+        millions of days; such values are still published and compared as
+        operands of their step, but not kept as pool members"""
+        name = type(obj).__name__
+        if name in ("Duration", "TimeZone"):
+            vals = [v for v in (obj._years, obj._months, obj._weeks,
+                                obj._days) if v is not None]
+            if any(abs(v) > 4000 for v in vals):
+                return True
+            small = [v for v in (obj._hours, obj._minutes, obj._seconds)
+                     if v is not None]
+            return any(abs(v) > 10 ** 8 for v in small)
+        if name == "TimePoint":
+            return obj._year is not None and abs(obj._year) > 15000
+        if name == "TimeRecurrence":
+            return any(x is not None and Program.too_big(x)
+                       for x in (obj._start_point, obj._end_point,
+                                 obj._duration))
+        return False
+
     def add(self, obj):
         name = type(obj).__name__
         if name not in SLOTTED:
+            return
+        if self.too_big(obj):
             return
         self.publish(obj)
         if len(self.pool) >= 400:
